@@ -1,6 +1,6 @@
 use cosmwasm_std::{
-    to_binary, Addr, CosmosMsg, DepsMut, Env, MessageInfo, ReplyOn, Response, StdError, StdResult,
-    SubMsg, Uint128, WasmMsg,
+    to_binary, Addr, CosmosMsg, Deps, DepsMut, Env, MessageInfo, ReplyOn, Response, StdError,
+    StdResult, SubMsg, Uint128, WasmMsg,
 };
 
 use crate::{
@@ -354,6 +354,7 @@ pub fn liquidate(
     // first see if this is a partial liquidation, else get rekt
     let msg = if margin_ratio.value > config.liquidation_fee
         && !config.partial_liquidation_ratio.is_zero()
+        && can_settle_partial_liquidation(deps.as_ref(), &config, &position)?
     {
         partial_liquidation(deps, env, vamm.clone(), trader.clone(), quote_asset_limit)?
     } else {
@@ -614,6 +615,50 @@ fn open_reverse_position(
     };
 
     Ok(msg)
+}
+
+/// The partial path takes the realised share of the spot PnL and the penalty out of the stored margin and
+/// adjusts the open notional with unsigned arithmetic. A position that cannot bear that (its loss already
+/// exceeds what is left) is liquidated in full instead of making the whole call fail.
+fn can_settle_partial_liquidation(
+    deps: Deps,
+    config: &Config,
+    position: &Position,
+) -> StdResult<bool> {
+    let partial_position_size = position
+        .size
+        .value
+        .checked_mul(config.partial_liquidation_ratio)?
+        .checked_div(config.decimals)?;
+
+    let exchanged_notional = query_vamm_output_amount(
+        &deps,
+        position.vamm.to_string(),
+        position.direction.clone(),
+        partial_position_size,
+    )?;
+
+    let PositionUnrealizedPnlResponse {
+        position_notional: _,
+        unrealized_pnl,
+    } = get_position_notional_unrealized_pnl(deps, position, PnlCalcOption::SpotPrice)?;
+
+    let realized_pnl = (unrealized_pnl * Integer::new_positive(config.partial_liquidation_ratio))
+        / Integer::new_positive(config.decimals);
+
+    let liquidation_penalty = exchanged_notional
+        .checked_mul(config.liquidation_fee)?
+        .checked_div(config.decimals)?;
+
+    let margin_covers = position.margin >= realized_pnl.value.checked_add(liquidation_penalty)?;
+
+    let notional_covers = if position.size.is_negative() {
+        realized_pnl.value.checked_add(position.notional)? >= exchanged_notional
+    } else {
+        position.notional >= exchanged_notional.checked_add(realized_pnl.value)?
+    };
+
+    Ok(margin_covers && notional_covers)
 }
 
 fn partial_liquidation(
